@@ -23,13 +23,14 @@ LocalHosts == {"lhName", "lhUpper", "lo4", "lo4b", "lo6", "unspec4", "unspec6", 
 HostClasses == {"origin",      \* ordinary name, matches nothing
                 "denied",      \* matches a deny-domains include rule
                 "deniedUpper", \* the same domain spelt in upper case by the client: the same domain, denied as well
+                "deniedWide",  \* spelt with full-width letters, which the transport maps to the denied name before it dials
                 "denyExcl",    \* matches an include rule and a '-' exclude rule
                 "direct",      \* matches direct-domains
                 "directUpper", \* the same domain spelt in upper case by the client
                 "directExcl"}  \* matches direct-domains include and exclude
                \cup LocalHosts
 IsLocal(h) == h \in LocalHosts
-IsDenied(h) == h \in {"denied", "deniedUpper"}
+IsDenied(h) == h \in {"denied", "deniedUpper", "deniedWide"}
 
 (* ---------- credentials presented to this proxy ---------- *)
 CredClasses == {"none", "exact", "wrongPass", "userPrefix", "passSuffix", "passPrefix", "caseVar", "emptyPass",
@@ -127,9 +128,9 @@ AccessCfgs == [tf : {"off", "in", "out"}, auth : BOOLEAN, lh : {"deny", "allow"}
 AccessReqs == [kind : AccessKinds, host : HostClasses \ {"direct", "directUpper", "directExcl"}, cred : CredClasses,
                via : {"none", "ownOnly"}, pos : Positions]
 AccessOK(c, r) ==
-  /\ (r.host \in {"lo6zone", "lhDot", "lhWide", "lo4Ideo"} => r.kind \in {"GET", "GET10", "POST"})   \* written in a URL
+  /\ (r.host \in {"lo6zone", "lhDot", "lhWide", "lo4Ideo", "deniedWide"} => r.kind \in {"GET", "GET10", "POST"})   \* written in a URL
   /\ (r.cred # "none" => c.auth)                 \* credentials only matter with auth on
-  /\ (r.host \in {"denied", "deniedUpper", "denyExcl"} => c.deny)
+  /\ (r.host \in {"denied", "deniedUpper", "deniedWide", "denyExcl"} => c.deny)
   /\ (r.pos \in AfterRefused => (c.auth \/ c.deny \/ c.lh = "deny" \/ c.tf = "out"))
   /\ (r.pos = "afterOK" => c.tf # "out")
 AccessAll == {x \in AccessCfgs \X AccessReqs : AccessOK(x[1], x[2])}
@@ -182,7 +183,7 @@ Pick(n, S) == IF n = 0 THEN S ELSE RandomSubset(n, S)
 \* every (kind, host) pair is always run alone - first on its connection, credentials absent or right, no other control failing
 AccessBase == {x \in AccessAll : /\ x[2].cred \in {"none", "exact"} /\ x[2].via = "none" /\ x[2].pos = "first"
                                  /\ x[1].tf = "off" /\ x[1].up = NoUp
-                                 /\ x[1].deny = (x[2].host \in {"denied", "deniedUpper", "denyExcl"})}
+                                 /\ x[1].deny = (x[2].host \in {"denied", "deniedUpper", "deniedWide", "denyExcl"})}
 InitAccess == gen = "access" /\ \E x \in Pick(AccessSample, AccessAll) \cup (IF AccessSample = 0 THEN {} ELSE AccessBase) :
                   cfg = x[1] /\ req = x[2] /\ out = Decide(x[1], x[2])
 \* every (kind, host, upstream) triple is always run without connect-to rules
